@@ -1433,6 +1433,22 @@ def _quick_has_unknown_or_vanished(trees):
     return False
 
 
+class _AliasDict(dict):
+    """the nested functions of a function; `get` / `[]` also know the role names, iteration does not"""
+
+    def __init__(self, base, extra):
+        dict.__init__(self, base)
+        self.extra = extra
+
+    def get(self, k, d=None):
+        if k in self:
+            return dict.get(self, k)
+        return self.extra.get(k, d)
+
+    def __missing__(self, k):
+        return self.extra[k]
+
+
 def _calls_named(node, *names):
     return any(isinstance(x, ast.Call) and ((isinstance(x.func, ast.Name) and x.func.id in names) or (isinstance(x.func, ast.Attribute) and x.func.attr in names)) for x in ast.walk(node))
 
@@ -1482,6 +1498,7 @@ class Program:
             self.modules[name] = mod
         for mod in self.modules.values():
             self._index_module(mod)
+        self.aliases = {}
         # nested functions that rules refer to by their known name are also found by what they do (a lifted and restored closure may have a new name)
         for q, pred in NESTED_ROLES.items():
             hostq, name = q.rsplit('.', 1)
@@ -1489,8 +1506,8 @@ class Program:
             if host is not None and name not in host.nested:
                 cands = [g for g in host.nested.values() if pred(g.node)]
                 if len(cands) == 1:
-                    host.nested[name] = cands[0]
-                    self.funcs[q] = cands[0]
+                    self.aliases[q] = cands[0]
+                    host.nested = _AliasDict(host.nested, {name: cands[0]})
         self.stubs = _load_stub_types(self, sources)
 
     # -- indexing -----------------------------------------------------
@@ -1564,6 +1581,8 @@ class Program:
 
     def func(self, qualname):
         if qualname not in self.funcs:
+            if qualname in getattr(self, 'aliases', {}):
+                return self.aliases[qualname]
             raise AnalysisError('anchor function vanished: %s' % qualname)
         return self.funcs[qualname]
 
@@ -1573,7 +1592,7 @@ class Program:
         return self.classes[qualname]
 
     def has_func(self, qualname):
-        return qualname in self.funcs
+        return qualname in self.funcs or qualname in getattr(self, 'aliases', {})
 
     def resolve_symbol(self, modname, symbol, _depth=0):
         """Resolve `symbol` looked up as attribute of module `modname`.
